@@ -127,7 +127,11 @@ func c03SchedRun(rep *common.Report, procs int) (exhaustive bool, diverged int) 
 	var jobs []sched.Job
 	for _, n := range names {
 		for s := 0; s < shards; s++ {
-			jobs = append(jobs, sched.Job{Scenario: n, Preempt: pre, Data: 1, Sched: sd, ShardI: s, ShardN: shards, BudgetS: budget})
+			p, d := pre, sd
+			if n == "create||add||add" && common.Tier() != "thorough" {
+				p, d = 1, 2 // three clients: one pre-emption in the quick tier
+			}
+			jobs = append(jobs, sched.Job{Scenario: n, Preempt: p, Data: 1, Sched: d, ShardI: s, ShardN: shards, BudgetS: budget})
 		}
 	}
 	totalBudget := 45.0
